@@ -31,18 +31,18 @@ var deadline = func() time.Duration {
 type Op struct {
 	K    string `json:"k"`
 	A    int    `json:"a,omitempty"`
-	Kind int    `json:"kind,omitempty"` // call behaviour: 0 return at once, 1 Ack then wait for gate, 2 wait for gate without Ack, 3 yield, Ack, wait
+	Kind int    `json:"kind,omitempty"` // call behaviour: 0 return at once, 1 Ack then wait for gate, 2 wait for gate without Ack, 3 yield, Ack, wait, 4 a method the server does not implement, 5 the caller's PlaceArgs fails
 	Err  bool   `json:"err,omitempty"`  // the implementation returns an error
 	Y    int    `json:"y,omitempty"`    // yields before Ack (kind 3)
 }
 
 type Case struct {
-	Max   int  `json:"max_concurrent"`
-	Queue int  `json:"answer_queue"`
+	Max   int `json:"max_concurrent"`
+	Queue int `json:"answer_queue"`
 	// Direct: Shutdown is called on the *server.Server itself (as a ClientHook wrapper would) rather than through the
 	// last Release of a capnp.Client - the only way Shutdown can meet Sends that are still waiting inside the server
 	Direct bool `json:"direct_shutdown,omitempty"`
-	Ops   []Op `json:"ops"`
+	Ops    []Op `json:"ops"`
 }
 
 type callState struct {
@@ -70,20 +70,20 @@ type pipeState struct {
 }
 
 type machine struct {
-	mu      sync.Mutex // guards the calls slice (appended by the script goroutine, read by implementations)
-	c       Case
-	log     *capsim.Log
-	srv     *server.Server
-	client  *capnp.Client
-	calls   []*callState
-	sd      shutdowner
-	issueBusy chan struct{} // non-nil while a SendCall is blocked inside the server
-	shutdownDone chan struct{}
+	mu             sync.Mutex // guards the calls slice (appended by the script goroutine, read by implementations)
+	c              Case
+	log            *capsim.Log
+	srv            *server.Server
+	client         *capnp.Client
+	calls          []*callState
+	sd             shutdowner
+	issueBusy      chan struct{} // non-nil while a SendCall is blocked inside the server
+	shutdownDone   chan struct{}
 	shutdownIssued bool
-	nextPipe uint64
-	nextGroup int
-	burstBusy []chan struct{}
-	stats struct{ queuedPipes, blockedIssues, overflowPipes, shutdownMeetsSend int }
+	nextPipe       uint64
+	nextGroup      int
+	burstBusy      []chan struct{}
+	stats          struct{ queuedPipes, blockedIssues, overflowPipes, shutdownMeetsSend, refused int }
 }
 
 type shutdowner struct {
@@ -158,10 +158,17 @@ func (m *machine) issue(op Op, burst bool) error {
 	m.log.Add(capsim.Event{Kind: "issue", Call: uint64(cs.id)})
 	go func() {
 		defer close(cs.sent)
+		meth := capnp.Method{InterfaceID: ifaceID, MethodID: methodID}
+		if op.Kind == 4 {
+			meth.MethodID = methodID + 7
+		}
 		cs.ans, cs.rel = m.client.SendCall(ctx, capnp.Send{
-			Method:   capnp.Method{InterfaceID: ifaceID, MethodID: methodID},
+			Method:   meth,
 			ArgsSize: capnp.ObjectSize{DataSize: 8},
 			PlaceArgs: func(s capnp.Struct) error {
+				if op.Kind == 5 {
+					return fmt.Errorf("place-args-error-%d", cs.id)
+				}
 				s.SetUint64(0, uint64(cs.id))
 				return nil
 			},
@@ -198,6 +205,10 @@ func (m *machine) issue(op Op, burst bool) error {
 	}
 	if op.Kind == 2 {
 		predictBlock = true // an implementation that never acknowledges keeps its own Send waiting until it returns
+	}
+	if op.Kind >= 4 {
+		predictBlock = false // refused before it is queued: it waits for nothing and nothing waits for it
+		m.stats.refused++
 	}
 	if predictBlock {
 		m.stats.blockedIssues++
@@ -526,6 +537,14 @@ func run(c Case) (pbt.Result, error) {
 		}
 		started := m.started(cs.id)
 		switch {
+		case cs.op.Kind >= 4:
+			want := "unimplemented"
+			if cs.op.Kind == 5 {
+				want = fmt.Sprintf("place-args-error-%d", cs.id)
+			}
+			if started || o.err == nil || !strings.Contains(o.err.Error(), want) {
+				return res, pbt.Fail("refused-call", "call %d (kind %d: the server has no such method / the arguments could not be placed) started=%v, result err=%v; want an error containing %q and no delivery", cs.id, cs.op.Kind, started, o.err, want)
+			}
 		case !started:
 			// never reached the implementation: only legitimate through cancellation or shutdown
 			if o.err == nil || !(cs.canceled || m.shutdownIssued) {
@@ -592,6 +611,7 @@ func run(c Case) (pbt.Result, error) {
 	res.Count("blocked_issues", int64(m.stats.blockedIssues))
 	res.Count("queued_pipelined", int64(m.stats.queuedPipes))
 	res.Count("overflow_pipelined", int64(m.stats.overflowPipes))
+	res.Count("refused_calls", int64(m.stats.refused))
 	res.Count("direct_shutdown_with_send_waiting", int64(m.stats.shutdownMeetsSend))
 	if c.Direct {
 		res.Class("direct-shutdown")
@@ -743,7 +763,7 @@ func genCase(t *rapid.T) Case {
 			op.Y = rapid.IntRange(0, 5).Draw(t, "y")
 		}
 		if op.K == "call" {
-			op.Kind = rapid.SampledFrom([]int{0, 1, 1, 2, 3}).Draw(t, "kind")
+			op.Kind = rapid.SampledFrom([]int{0, 0, 1, 1, 1, 1, 2, 2, 3, 3, 4, 5}).Draw(t, "kind")
 			op.Err = rapid.IntRange(0, 4).Draw(t, "err") == 0
 			op.Y = rapid.IntRange(0, 5).Draw(t, "y")
 		}
@@ -757,10 +777,10 @@ func genCase(t *rapid.T) Case {
 
 var _ = pbt.Register(pbt.Spec[Case]{
 	Property: "C12", Name: "server-script",
-	Rule:     "scripts of up to 25 ops against a server.Server (MaxConcurrentCalls 1-4, AnswerQueueSize 1-8) with one instrumented method: calls issued one after another from one goroutine (the next is issued once the previous Send returned; a Send the model predicts to block - previous call neither acked nor returned, or Max running - is awaited in the background and nothing is issued meanwhile), behaviours {return at once, Ack then wait, wait without Ack, yield k times then Ack then wait} x {results with a counted capability, error}, gate openings, context cancellations, pipelined calls on returned and not-yet-returned answers up to and beyond the queue size, Shutdown via the last Release or (1 in 3 cases) called on the Server itself while Sends are still waiting for an Ack or a slot, a call after shutdown. Invariants on the event log: implementations start in issue order; none starts before the previous one acknowledged or returned; running <= Max at every event; each answer resolves once with its own results/error; pipelined calls reach the capability of a successful answer exactly once, after its return and in the order they were made (incl. calls that found the queue full), or fail with its error; Shutdown cancels and waits for running calls, the user's Shutdown runs exactly once after the last return, no implementation starts afterwards; every Send/answer/Release returns. Non-trivial: a Send was blocked by the server or a pipelined call was queued.",
-	Quick:    2500, Thorough: 25000,
-	Gen:      genCase,
-	Run:      run,
+	Rule:  "scripts of up to 25 ops against a server.Server (MaxConcurrentCalls 1-4, AnswerQueueSize 1-8) with one instrumented method: calls issued one after another from one goroutine (the next is issued once the previous Send returned; a Send the model predicts to block - previous call neither acked nor returned, or Max running - is awaited in the background and nothing is issued meanwhile), behaviours {return at once, Ack then wait, wait without Ack, yield k times then Ack then wait} x {results with a counted capability, error}, calls the server refuses before queueing them (unknown method, failing PlaceArgs: error answer at once, no delivery, nobody kept waiting), gate openings, context cancellations, pipelined calls on returned and not-yet-returned answers up to and beyond the queue size, Shutdown via the last Release or (1 in 3 cases) called on the Server itself while Sends are still waiting for an Ack or a slot, a call after shutdown. Invariants on the event log: implementations start in issue order; none starts before the previous one acknowledged or returned; running <= Max at every event; each answer resolves once with its own results/error; pipelined calls reach the capability of a successful answer exactly once, after its return and in the order they were made (incl. calls that found the queue full), or fail with its error; Shutdown cancels and waits for running calls, the user's Shutdown runs exactly once after the last return, no implementation starts afterwards; every Send/answer/Release returns. Non-trivial: a Send was blocked by the server or a pipelined call was queued.",
+	Quick: 2500, Thorough: 25000,
+	Gen: genCase,
+	Run: run,
 })
 
 var _ = errors.New
